@@ -37,6 +37,10 @@ def make_case(ctype):
     def case(draw):
         spec = draw(graphs.collection_spec(ctype=ctype))
         spec["audio"] = draw(st.sampled_from(["none", "none", "path"]))
+        if ctype == "evaluation":
+            # the evaluation is edited after it was built (models are mutable, validators do not re-run): low-score predictions
+            # filtered out of a clip, an annotation withdrawn - the matches still mention them, so they stay reachable
+            spec["post_mutation"] = draw(st.sampled_from([None, None, "drop_prediction", "drop_annotation"]))
         return spec
 
     return case
@@ -50,6 +54,15 @@ def check(spec, ctx):
     d = scratch()
     audio = Path(d) / "audio"
     obj, _ = graphs.build(spec, audio_root=audio if spec["audio"] != "none" else None)
+    pm = spec.get("post_mutation")
+    if pm and hasattr(obj, "clip_evaluations"):
+        for ce in obj.clip_evaluations:
+            side = ce.predictions if pm == "drop_prediction" else ce.annotations
+            mentioned = {id(m.source if pm == "drop_prediction" else m.target) for m in ce.matches}
+            keep = [x for x in side.sound_events if id(x) not in mentioned]
+            if len(keep) < len(side.sound_events):
+                side.sound_events = keep + [x for x in side.sound_events if id(x) in mentioned][1:]  # the first mentioned one leaves the list
+                ctx.label(f"post_mutation={pm}")
     path = os.path.join(d, "doc2.json")
     kw = {"audio_dir": audio} if spec["audio"] != "none" else {}
     ctx.call(spec, f"io.save({spec['ctype']})", io.save, obj, path, **kw)
